@@ -682,7 +682,7 @@ pub fn parts() -> Vec<Box<dyn PartDyn>> {
     vec![Box::new(Part::<Case> {
         name: "e2e",
         rule: "2-6 channels on as many threads, each running 3-19 ops drawn from every synchronous entry point and its nowait variant (plus publishes, gets and consumes with messages), the connection thread opening/closing extra channels meanwhile; the broker answers with unique values per (channel, sequence), holds replies in a pool and releases them in a generated cross-channel order, optionally several per read segment; oracle: every call returns exactly the values of the reply generated for that channel and sequence number (expectation table shared with C12), nowait variants return without a reply, the wire per channel equals the expected frames; non-trivial = >= 2 calls in flight at once and replies released out of arrival order (measured in the broker); distinct by case hash",
-        cases: |t| t.pick(600, 15_000),
+        cases: |t| t.pick(2000, 40_000),
         threads: 12,
         strategy: |_t| base_strat(false),
         exec,
@@ -738,7 +738,7 @@ pub fn parts_c01() -> Vec<Box<dyn PartDyn>> {
     vec![Box::new(Part::<Case> {
         name: "e2e",
         rule: "programs of 1-24 client ops (publishes with bodies up to 20 000 bytes and generated properties, every nowait method, synchronous calls, gets/consumes) on 1-6 channels spread over 1-4 client threads (up to two channels interleaved on one thread), client frame_max in {4096, 4097, 8192, unlimited}, mem_channel_bound 1-16, against a transport write script of up to 200 entries (short writes of 1/2/3/7/8/9 or up to 20 000 bytes, would-block with immediate re-arm, would-block held until granted) that applies from the first byte of the protocol header; oracle on the complete outbound log after close: 8-byte protocol header, then only whole well-formed frames with nothing trailing (independent envelope parser), and per channel exactly the concatenation of the frames each op must emit, in issue order (expectation table shared with C12) - which rules out loss, duplication, reordering and intra-frame interleaving; non-trivial = >= 2 channels wrote and >= 1 write call ended strictly inside a frame (measured from the write-size log); distinct by case hash",
-        cases: |t| t.pick(1200, 30_000),
+        cases: |t| t.pick(4000, 60_000),
         threads: 12,
         strategy: |_t| c01_strat(),
         exec,
@@ -752,7 +752,7 @@ pub fn parts_c09() -> Vec<Box<dyn PartDyn>> {
     vec![Box::new(Part::<Case> {
         name: "e2e",
         rule: "the C04 sessions (2-6 channel threads, held and reordered replies) plus one server-initiated Channel.Close(n, code, text) sent after a generated number of requests while n is idle / has a call in flight (its reply withheld) / has half-received content, optionally glued to other channels' replies in one segment; oracle on n: results before the close equal the expectation, the first failing call carries ServerClosedChannel{n, code, text}, every later call fails, the wire of n is a prefix of its program followed by exactly one Channel.CloseOk; elsewhere the C04 oracle holds, open_channel(Some(n)) succeeds again and the session closes Ok; non-trivial = n had a call in flight or half-received content while another channel had a call in flight; distinct by case hash",
-        cases: |t| t.pick(600, 15_000),
+        cases: |t| t.pick(2000, 40_000),
         threads: 12,
         strategy: |_t| base_strat(true),
         exec,
